@@ -486,10 +486,8 @@ func (c *checker) value(v *ast.Value, t *ast.Type, where string) {
 			}
 		default:
 			// custom scalar: any literal; still an input-object literal inside must not repeat a field
+			// (numbers of any magnitude included: a custom scalar accepts any literal)
 			c.valueNoType(v)
-			if hasOutOfRangeNumber(v) {
-				c.undecided("numeric literal beyond int64/float64 for a custom scalar")
-			}
 		}
 	case ast.Enum:
 		if v.Kind != ast.EnumValue {
